@@ -31,9 +31,9 @@ IDX_KINDS_QUICK = ["y-abs", "y-abs-rho", "y-rel", "y-rel-model", "y-cov", "y-cor
 HIST_KINDS = ["y-abs", "y-abs-rho", "y-rel", "y-rel-model", "y-cov", "y-cor", "y-abs-model"]
 
 CANON = {
-    "xy": ["chi2", "chi2_fast", "chi2_pointwise", "chi2_no_errors", "chi2_covariance", "nll-gaussian", "nllr-gaussian", "nll", "nllr-poisson", "gauss_approximation", "gauss_approximation_pointwise"],
-    "indexed": ["chi2", "chi2_fast", "chi2_pointwise", "chi2_no_errors", "chi2_covariance", "nll-gaussian", "nllr-gaussian", "nll", "nllr-poisson", "gauss_approximation", "gauss_approximation_covariance_fast", "gauss_approximation_pointwise"],
-    "hist": ["chi2", "chi2_fast", "chi2_pointwise", "nll-gaussian", "nll", "nllr", "gauss_approximation", "gauss_approximation_pointwise"],
+    "xy": ["chi2:nodet", "chi2", "chi2_fast", "chi2_pointwise", "chi2_no_errors", "chi2_covariance", "nll-gaussian", "nllr-gaussian", "nll", "nllr-poisson", "gauss_approximation", "gauss_approximation_pointwise"],
+    "indexed": ["chi2:nodet", "chi2", "chi2_fast", "chi2_pointwise", "chi2_no_errors", "chi2_covariance", "nll-gaussian", "nllr-gaussian", "nll", "nllr-poisson", "gauss_approximation", "gauss_approximation_covariance_fast", "gauss_approximation_pointwise"],
+    "hist": ["chi2:nodet", "chi2", "chi2_fast", "chi2_pointwise", "nll-gaussian", "nll", "nllr", "gauss_approximation", "gauss_approximation_pointwise"],
     "unbinned": ["nll"],
 }
 CONS = [(), ("simple",), ("simple-rel",), ("matrix-cov",), ("matrix-cor",), ("matrix-cov-rel",), ("simple", "matrix-cor")]
@@ -46,7 +46,10 @@ def all_ids(ftype):
         from kafe2.fit.unbinned.cost import STRING_TO_COST_FUNCTION as T
     else:
         from kafe2.fit._base.cost import STRING_TO_COST_FUNCTION as T
-    return sorted(T)
+    ids = sorted(T)
+    if ftype in ("xy", "indexed", "hist"):
+        ids.append("chi2:nodet")  # cost function object built with add_determinant_cost=False
+    return ids
 
 
 def source_lists(kinds, maxlen):
@@ -202,7 +205,56 @@ def run_one(res, ftype, model, cid, v, plan, collect=None):
         if w.n_enabled() > 0 or cons:
             res.nontriv((ftype, model, cid, sl, dis, cons, preread, pid, v))
     res.executions += 1
+    if not viol and ftype != "unbinned":
+        viol += _post_fit_phase(res, w, ftype, model, cid, hist, sl, dis, cons)
     return viol
+
+
+def _post_fit_phase(res, w, ftype, model, cid, hist, sl, dis, cons):
+    """do_fit() must not change WHICH function is reported: the cost at the fitted point (and after declaring one more,
+    correlated, source) still is the documented likelihood of the declared inputs."""
+    fam, var = ref.cost_family(cid)
+    out = []
+    if w.n_enabled() == 0 and ref.needs_sources(cid) and not w.implicit_no_errors:
+        return out
+    if w.has_model_sources() and fam != "chi2":
+        return out  # keep the fitted problems simple: likelihood fits with parameter-dependent errors are covered in C06
+    steps = [("fit",)]
+    if fam in ("chi2", "ga") or var == "gauss":
+        steps.append(("add", "y-abs-rho", "z9"))
+    for op in steps:
+        hist.append(list(op))
+        try:
+            w.apply(op)
+        except Exception as e:  # noqa: BLE001
+            if op[0] == "fit":
+                return out  # a fit that cannot run (ill-posed configuration of the product) is not this property's business
+            out.append(_viol(res, ftype, model, cid, hist, "op:" + op[0], "no exception", type(e).__name__, "exception:" + type(e).__name__))
+            return out
+        res.transitions += 1
+        pv = np.array(list(w.pv.values()), dtype=float)
+        if not np.all(np.isfinite(pv)):
+            return out
+        covs = w.ref_covs()
+        m = np.asarray(w.ref_model(), dtype=float)
+        if ref.needs_sources(cid) and not w.implicit_no_errors and not _pd(covs["total"]):
+            return out
+        if fam == "ga" and not _pd(covs["total"] + np.diag(m)):
+            return out
+        if (fam in ("nll", "nllr", "ga") and var != "gauss") and np.any(m <= 0):
+            return out
+        exp = w.ref_cost()
+        if not np.isfinite(exp):
+            return out
+        act = w.observe("cost_function_value")
+        res.evaluations += 1
+        ok = close_scaled(act, exp, rtol=1e-9)
+        res.outcomes[(ftype, fam, "cost-after-" + op[0], "ok" if ok else "MISMATCH")] += 1
+        res.facts["post-fit:" + ftype] += 1
+        if not ok:
+            out.append(_viol(res, ftype, model, cid, hist, "cost_function_value", exp, act, "wrong-value" if not isinstance(act, tuple) else "exception:" + act[1]))
+            return out
+    return out
 
 
 def _viol(res, ftype, model, cid, hist, obs, exp, act, mode):
